@@ -448,6 +448,9 @@ class Parser:
             return True
 
         if ttype == "semicolon":
+            if self.__curcommand.accept_children:
+                # a block is expected, not a semicolon
+                return False
             self.__cstate = None
             if not self.__check_command_completion(testsemicolon=False):
                 return False
